@@ -486,6 +486,211 @@ def model_builders(ctx):
                               {"model": name, "L": L, "max_abs_diff": float(np.max(np.abs(A - B)))})
 
 
+def ref_sum(n, terms):
+    """sum of coeff * product of embedded named operators (site = register)"""
+    return ref_matrix(terms, {i: i for i in range(n)}, n)
+
+
+def matrix_generators(ctx):
+    """matrix-side Hamiltonian generators vs the explicit sum of embedded spin / boson operators."""
+    import quimb as qu
+
+    rng = ctx.rng
+    vals = [0.5, 1.0, 1.5, 2.0, -1.0, 0.25, -0.5]
+
+    def dense(x):
+        return np.asarray(x.toarray() if hasattr(x, "toarray") else x)
+
+    def compare(name, params, got, want):
+        ctx.count((name, repr(params)), True)
+        ctx.bump("gen:" + name)
+        got = dense(got)
+        if got.shape != want.shape or not np.allclose(got, want, atol=1e-10):
+            ctx.violation(f"generator:{name}", f"{name}{params} differs from the explicit sum of embedded operators",
+                          {"call": name, "params": repr(params), "max_abs_diff": float(np.max(np.abs(got - want))) if got.shape == want.shape else None})
+
+    for _ in range(ctx.n(25, 250)):
+        n = rng.randint(2, 5)
+        cyc = rng.random() < 0.5
+        bonds = [(i, i + 1) for i in range(n - 1)] + ([(n - 1, 0)] if cyc and n > 2 else [])
+        # heisenberg family
+        j = tuple(rng.choice(vals) for _ in range(3))
+        b = tuple(rng.choice(vals + [0.0]) for _ in range(3))
+        terms = []
+        for (u, v) in bonds:
+            for c, a in zip(j, ("sx", "sy", "sz")):
+                terms.append((c, ((a, u), (a, v))))
+        for i in range(n):
+            for c, a in zip(b, ("sx", "sy", "sz")):
+                terms.append((-c, ((a, i),)))
+        try:
+            compare("ham_heis", dict(n=n, j=j, b=b, cyclic=cyc), qu.ham_heis(n, j=j, b=b, cyclic=cyc), ref_sum(n, terms))
+        except Exception as e:
+            ctx.violation("generator:ham_heis:raised", f"ham_heis raised {type(e).__name__}: {e}", {"n": n, "j": j, "b": b, "cyclic": cyc})
+        # j1-j2
+        j1, j2, bz = rng.choice(vals), rng.choice(vals), rng.choice(vals + [0.0])
+        nn = [(i, i + 1) for i in range(n - 1)] + ([(n - 1, 0)] if cyc and n > 2 else [])
+        nnn = [(i, i + 2) for i in range(n - 2)] + ([(n - 2, 0), (n - 1, 1)] if cyc and n > 4 else [])
+        terms = []
+        for c, prs in ((j1, nn), (j2, nnn)):
+            for (u, v) in prs:
+                for a in ("sx", "sy", "sz"):
+                    terms.append((c, ((a, u), (a, v))))
+        for i in range(n):
+            terms.append((bz, (("sz", i),)))
+        if not cyc or n > 4:
+            try:
+                compare("ham_j1j2", dict(n=n, j1=j1, j2=j2, bz=bz, cyclic=cyc), qu.ham_j1j2(n, j1=j1, j2=j2, bz=bz, cyclic=cyc), ref_sum(n, terms))
+            except Exception as e:
+                ctx.violation("generator:ham_j1j2:raised", f"ham_j1j2 raised {type(e).__name__}: {e}", {"n": n, "cyclic": cyc})
+        # hardcore bosons
+        t, V, mu = rng.choice(vals), rng.choice(vals), rng.choice(vals)
+        terms = []
+        for (u, v) in bonds:
+            terms.append((-t, (("+", u), ("-", v))))
+            terms.append((-t, (("-", u), ("+", v))))
+            terms.append((V, (("n", u), ("n", v))))
+        for i in range(n):
+            terms.append((-mu, (("n", i),)))
+        try:
+            compare("ham_hubbard_hardcore", dict(n=n, t=t, V=V, mu=mu, cyclic=cyc),
+                    qu.ham_hubbard_hardcore(n, t=t, V=V, mu=mu, cyclic=cyc), ref_sum(n, terms))
+        except Exception as e:
+            ctx.violation("generator:ham_hubbard_hardcore:raised", f"ham_hubbard_hardcore raised {type(e).__name__}: {e}", {"n": n, "cyclic": cyc})
+    # 2D heisenberg
+    for (nx, ny) in ctx.n([(2, 2), (2, 3)], [(2, 2), (2, 3), (3, 2), (3, 3)]):
+        for cyc in (False, True):
+            jj = tuple(rng.choice(vals) for _ in range(3))
+            bz = rng.choice(vals)
+            idx = lambda x, y: x * ny + y
+            prs = set()
+            for x in range(nx):
+                for y in range(ny):
+                    for dx, dy in ((1, 0), (0, 1)):
+                        x2, y2 = x + dx, y + dy
+                        if cyc:
+                            if (dx and nx > 2) or x2 < nx:
+                                x2 %= nx
+                            if (dy and ny > 2) or y2 < ny:
+                                y2 %= ny
+                        if x2 < nx and y2 < ny and (x2, y2) != (x, y):
+                            prs.add(tuple(sorted((idx(x, y), idx(x2, y2)))))
+            terms = []
+            for (u, v) in sorted(prs):
+                for c, a in zip(jj, ("sx", "sy", "sz")):
+                    terms.append((c, ((a, u), (a, v))))
+            for i in range(nx * ny):
+                terms.append((-bz, (("sz", i),)))
+            try:
+                compare("ham_heis_2D", dict(n=nx, m=ny, j=jj, bz=bz, cyclic=cyc), qu.ham_heis_2D(nx, ny, j=jj, bz=bz, cyclic=cyc), ref_sum(nx * ny, terms))
+            except Exception as e:
+                ctx.violation("generator:ham_heis_2D:raised", f"ham_heis_2D raised {type(e).__name__}: {e}", {"n": nx, "m": ny, "cyclic": cyc})
+
+
+def history_stream(ctx):
+    """representations must follow the CURRENT processing flags: build, toggle a rewrite, add a term, build again."""
+    import quimb.operator as qop
+
+    rng = ctx.rng
+    for it in range(ctx.n(40, 400)):
+        n = rng.randint(2, 4)
+        sites = list(range(n))
+        hs = qop.HilbertSpace(sites)
+        regs_of = {s: s for s in sites}
+        terms = rand_terms(rng, n, sites, fermionic=True)
+        H = qop.SparseOperatorBuilder(hilbert_space=hs)
+        for coeff, ops in terms:
+            H += (coeff, *ops)
+        jw = False
+        steps = []
+        ok = True
+        for step in range(rng.randint(2, 4)):
+            action = rng.choice(["build", "toggle_jw", "toggle_pd", "add", "build"])
+            steps.append(action)
+            try:
+                if action == "toggle_jw":
+                    H.jordan_wigner_transform  # property acting as a toggle
+                    jw = not jw
+                elif action == "toggle_pd":
+                    H.pauli_decompose()
+                elif action == "add":
+                    t = rand_terms(rng, n, sites, fermionic=True)[0]
+                    terms.append(t)
+                    H += (t[0], *t[1])
+                A = np.asarray(H.build_dense())
+                y = None
+                x = np.arange(1, 2**n + 1, dtype=complex)
+                y = np.asarray(H.matvec(x))
+            except Exception as e:
+                ctx.violation("history:raised", f"builder raised {type(e).__name__} after {steps}", {"n": n, "steps": steps, "error": str(e)[:150]})
+                ok = False
+                break
+            ref = ref_matrix(terms, regs_of, n, jw=jw)
+            ctx.count(("history", it, step, action), action != "build")
+            ctx.bump("history:" + action)
+            if not np.allclose(A, ref, atol=1e-9) or not np.allclose(y, ref @ x, atol=1e-9):
+                ctx.violation("history:stale_representation",
+                              f"after {steps} the built operator no longer equals the operator defined by the current terms and flags",
+                              {"n": n, "steps": steps, "jordan_wigner_now": jw,
+                               "terms": [(str(c), [(o, s) for o, s in ops]) for c, ops in terms]})
+                break
+
+
+def ordering_stream(ctx):
+    """HilbertSpace reordering keeps symmetry, sector, size and the rank bijection."""
+    from quimb.operator import HilbertSpace
+
+    rng = ctx.rng
+    for it in range(ctx.n(60, 500)):
+        n = rng.randint(2, 6)
+        sites = list(range(n))
+        kind = rng.choice(["none", "Z2", "U1", "U1U1"])
+        kw = {}
+        if kind == "Z2":
+            kw = dict(symmetry="Z2", sector=rng.randint(0, 1))
+            want = 2 ** (n - 1)
+        elif kind == "U1":
+            k = rng.randint(0, n)
+            kw = dict(symmetry="U1", sector=k)
+            want = math.comb(n, k)
+        elif kind == "U1U1":
+            na = rng.randint(1, n - 1)
+            nb = n - na
+            ka, kb = rng.randint(0, na), rng.randint(0, nb)
+            kw = dict(symmetry="U1U1", sector=((na, ka), (nb, kb)))
+            want = math.comb(na, ka) * math.comb(nb, kb)
+        else:
+            want = 2**n
+        try:
+            hs = HilbertSpace(sites, **kw)
+            order = sites[:]
+            rng.shuffle(order)
+            hs2 = hs.with_ordering(order)
+        except Exception as e:
+            ctx.bump("ordering_rejected")
+            continue
+        ctx.count(("ordering", kind, n, tuple(order), repr(kw)), want > 1)
+        ok = hs2.symmetry == hs.symmetry and hs2.sector == hs.sector and int(hs2.size) == want == int(hs.size)
+        if ok:
+            seen = set()
+            for r in range(min(want, 200)):
+                cfg = hs2.rank_to_config(r)
+                if int(hs2.config_to_rank(cfg)) != r:
+                    ok = False
+                seen.add(tuple(sorted(cfg.items())))
+                tot = sum(cfg.values())
+                if kind == "Z2" and tot % 2 != kw["sector"]:
+                    ok = False
+                if kind == "U1" and tot != kw["sector"]:
+                    ok = False
+            if len(seen) != min(want, 200):
+                ok = False
+        if not ok:
+            ctx.violation(f"hilbertspace:with_ordering:{kind}", f"with_ordering changed the {kind} sector / size / rank bijection",
+                          {"n": n, "kind": kind, "kw": repr(kw), "order": order, "size_before": int(hs.size), "size_after": int(hs2.size),
+                           "symmetry_after": str(hs2.symmetry), "sector_after": repr(hs2.sector)})
+
+
 def run(ctx):
     ctx.extra["rule"] = RULE
     ctx.trusted_base += [
@@ -502,6 +707,9 @@ def run(ctx):
     ctx.stage(hilbert_api)
     ctx.stage(representations)
     ctx.stage(model_builders)
+    ctx.stage(matrix_generators)
+    ctx.stage(history_stream)
+    ctx.stage(ordering_stream)
 
 
 def replay(ctx, path):
